@@ -59,6 +59,7 @@ type PDR struct {
 	NetInst string   `json:"net_inst,omitempty"`
 	AppID   string   `json:"app_id,omitempty"`
 	OHR     *uint8   `json:"ohr,omitempty"`
+	OHRForm int      `json:"ohr_form,omitempty"` // 0: description + extension-header-deletion octet, 1: description octet only (octet 6 is conditional), 2: deletion octet non-zero
 	FAR     *uint32  `json:"far,omitempty"`
 	QERs    []uint32 `json:"qers,omitempty"`
 	URRs    []uint32 `json:"urrs,omitempty"`
@@ -155,7 +156,14 @@ func (p *PDR) IE(order, pdiOrd []int) (*ie.IE, bool) {
 		cs = append(cs, ie.NewPDI(pdi...))
 	}
 	if p.OHR != nil {
-		cs = append(cs, ie.NewOuterHeaderRemoval(*p.OHR, 0))
+		switch p.OHRForm {
+		case 1:
+			cs = append(cs, ie.New(ie.OuterHeaderRemoval, []byte{*p.OHR}))
+		case 2:
+			cs = append(cs, ie.NewOuterHeaderRemoval(*p.OHR, 1))
+		default:
+			cs = append(cs, ie.NewOuterHeaderRemoval(*p.OHR, 0))
+		}
 	}
 	if p.FAR != nil {
 		cs = append(cs, ie.NewFARID(*p.FAR))
@@ -858,6 +866,7 @@ func genPDR(t *rapid.T) *PDR {
 	}
 	if rapid.Bool().Draw(t, "hasohr") {
 		p.OHR = ptr(rapid.SampledFrom([]uint8{0, 1, 2, 3, 6, 255}).Draw(t, "ohr"))
+		p.OHRForm = rapid.IntRange(0, 2).Draw(t, "ohr_form")
 	}
 	if rapid.Bool().Draw(t, "hasfar") {
 		p.FAR = ptr(u32gen.Draw(t, "far"))
